@@ -108,6 +108,10 @@ Proof.
     destruct (sim_from_pairs (pm_items q)) as [G1 G2]. cbv zeta. unfold rel_op.
     split; [|split; [exact G2 | exact G1]].
     rewrite sim_eq_omd, G2. reflexivity.
+  - (* CopyCyc *)
+    change (m_items (lift q)) with (pm_items q).
+    match goal with |- rel_op (Ok (pm_from_pairs ?l, _)) _ => destruct (sim_from_pairs l) as [G1 G2] end.
+    unfold rel_op. split; [reflexivity | split; [exact G2 | exact G1]].
   - (* Items *) destruct multi; [fin | bind_conv].
   - (* Keys *) fin.
   - (* Values *) destruct multi; [fin | bind_conv].
